@@ -3,6 +3,7 @@ package main
 import (
 	"fmt"
 	"sort"
+	"strconv"
 	"strings"
 	"time"
 
@@ -231,7 +232,8 @@ func c08Sem(r *h.Result, rng *h.Rng, n int) error {
 		ops = append(ops, "c08sem "+c.ser()+" "+ser+" "+db.ser())
 		textOps = append(textOps, "c08plan "+c.ser()+" "+ser)
 		impl = append(impl, h.Hex([]byte(sqlText)))
-		cases = append(cases, map[string]any{"query": query, "ctx": c, "db": db, "sql": sqlText, "model_op": ops[len(ops)-1]})
+		cases = append(cases, map[string]any{"query": query, "ctx": c, "db": db, "sql": sqlText, "model_op": ops[len(ops)-1], "dur": d,
+			"has_cmp": strings.Contains(ser, ":") && hasCmp(script)})
 		feats = append(feats, semFeatures(script))
 	}
 	// the plan evaluated is the real planner's SQL, byte for byte
@@ -244,26 +246,72 @@ func c08Sem(r *h.Result, rng *h.Rng, n int) error {
 	}
 	for i, a := range ans {
 		f := feats[i]
+		fields := strings.Fields(a)
+		// the model's own label of the case: proved:<path>:<shape> when Qryn.C08.plan_metric_correct applies to it
+		// (LogQL.supported and, on the metrics_15s path, LogQL.shortcutOkB hold), searched:<why>:<shape> otherwise; + stage count
+		if len(fields) < 4 {
+			return fmt.Errorf("c08sem: model answered %q for %v", a, ops[i])
+		}
+		class, stages := fields[len(fields)-2], fields[len(fields)-1]
+		r.Count("sem:class:" + class)
+		if strings.HasPrefix(class, "proved-in-timestamp-order:") {
+			r.Count("sem:proved-in-timestamp-order")
+			if ns, _ := strconv.Atoi(stages); ns >= 3 {
+				r.Count("sem:proved-in-timestamp-order:stages>=3")
+			}
+			for _, x := range f {
+				r.Count("sem:proved-in-timestamp-order:" + x)
+			}
+		} else if strings.HasPrefix(class, "proved:") {
+			r.Count("sem:proved")
+			ns, _ := strconv.Atoi(stages)
+			switch {
+			case ns >= 5:
+				r.Count("sem:proved:stages>=5")
+				fallthrough
+			case ns >= 3:
+				r.Count("sem:proved:stages>=3")
+			}
+			c := cases[i]["ctx"].(mctx)
+			if c.Step > scriptDurationOf(cases[i]) {
+				r.Count("sem:proved:step>range")
+			}
+			for _, x := range f {
+				r.Count("sem:proved:" + x)
+			}
+			if cases[i]["has_cmp"] == true {
+				r.Count("sem:proved:comparison")
+			}
+		} else if !strings.HasPrefix(class, "proved-in-timestamp-order:") {
+			r.Count("sem:searched")
+		}
 		switch {
-		case strings.HasPrefix(a, "ok "):
-			rows := strings.TrimPrefix(a, "ok ")
+		case fields[0] == "ok" && len(fields) == 4:
+			rows := fields[1]
 			r.Case("sem:"+fmt.Sprint(cases[i]["query"], cases[i]["ctx"], i), rows != "0")
 			if rows == "0" {
 				r.Count("sem:empty-result")
 			} else {
 				r.Count("sem:non-empty-result")
+				if strings.HasPrefix(class, "proved:") {
+					r.Count("sem:proved:non-empty-result")
+				}
 			}
 			for _, x := range f {
 				r.Count("sem:" + x)
 			}
-		case strings.HasPrefix(a, "diff "):
-			parts := strings.SplitN(a, " ", 3)
-			cases[i]["sql_rows"] = string(h.UnHex(parts[1]))
-			cases[i]["direct_reading"] = string(h.UnHex(parts[2]))
+		case fields[0] == "diff" && len(fields) == 5:
+			cases[i]["sql_rows"] = string(h.UnHex(fields[1]))
+			cases[i]["direct_reading"] = string(h.UnHex(fields[2]))
+			cases[i]["class"] = class
 			r.Case("sem:"+fmt.Sprint(cases[i]["query"], cases[i]["ctx"], i), true)
 			key := "C08/sql-differs-from-direct-reading:" + strings.Join(f, ",")
 			if isIn("agg-without-grouping", f) {
 				key = "C08/agg-without-grouping-keeps-streams"
+			}
+			if strings.HasPrefix(class, "proved:") || strings.HasPrefix(class, "theorem-rhs-differs:") {
+				// cannot happen while the theorem and the driver are built from the same definitions
+				key = "C08/proved-class-differs:" + class
 			}
 			r.Violate(key, "rows of the generated SQL (Sql.evalSelA of the model plan = the real planner's text) differ from the direct reading of "+fmt.Sprint(cases[i]["query"]), cases[i])
 			r.Count("sem:mismatch")
@@ -271,8 +319,22 @@ func c08Sem(r *h.Result, rng *h.Rng, n int) error {
 			return fmt.Errorf("c08sem: model answered %q for %v", a, ops[i])
 		}
 	}
+	// the stream has to exercise every class the plan-level theorems cover (fail closed when the generator stops doing so)
+	for _, need := range []string{
+		"sem:class:proved:samples:range", "sem:class:proved:samples:agg", "sem:class:proved:samples:topk(range)", "sem:class:proved:samples:topk(agg)",
+		"sem:class:proved:metrics_15s:range", "sem:class:proved:metrics_15s:agg",
+		"sem:proved:stages>=3", "sem:proved:step>range", "sem:proved:comparison", "sem:proved:non-empty-result",
+		"sem:class:proved-in-timestamp-order:samples:range", "sem:class:proved-in-timestamp-order:samples:agg",
+		"sem:class:proved-in-timestamp-order:samples:topk(agg)", "sem:proved-in-timestamp-order:stages>=3",
+	} {
+		if r.Distribution[need] == 0 {
+			return fmt.Errorf("c08sem: no case of %s among %d (the stream no longer exercises a class plan_metric_correct covers)", need, len(ans))
+		}
+	}
 	return nil
 }
+
+func scriptDurationOf(c map[string]any) int64 { return c["dur"].(int64) }
 
 // features of a script that name the failure class of a semantic mismatch
 func semFeatures(s *logql_parser.LogQLScript) []string {
@@ -299,4 +361,23 @@ func semFeatures(s *logql_parser.LogQLScript) []string {
 	}
 	sort.Strings(f)
 	return f
+}
+
+// a comparison anywhere in the script
+func hasCmp(s *logql_parser.LogQLScript) bool {
+	if ra := rangeOf(s); ra != nil && ra.Comparison != nil {
+		return true
+	}
+	if s.AggOperator != nil && s.AggOperator.Comparison != nil {
+		return true
+	}
+	if s.TopK != nil {
+		if s.TopK.Comparison != nil {
+			return true
+		}
+		if s.TopK.AggOperator != nil && s.TopK.AggOperator.Comparison != nil {
+			return true
+		}
+	}
+	return false
 }
